@@ -274,7 +274,91 @@ def _shard_order(arg):
     return t
 
 
+# -- one State object, several pictures (what an encoder that keeps its State does) -----------------
+SAME_STATE_CONFIGS = [(wi, wh, d, dh) for (wi, wh) in ((0, 0), (1, 1), (4, 4), (1, 4), (6, 2)) for (d, dh) in ((0, 0), (1, 0), (0, 1), (1, 1), (2, 1))]
+SAME_STATE_SIZES = ((4, 2), (5, 3), (6, 6))
+
+
+def check_same_state(cfg, w, h, share):
+    """picture_encode(state, A); keep A's transforms; picture_encode(state, B) with the same
+    State (or a shallow copy of it): the kept transforms must still be A's and decode to A."""
+    import copy as _copy
+
+    from vc2_conformance.pseudocode.state import State
+
+    E, D = enc(), dec()
+    wi, wh, d, dh = cfg
+    problems = []
+
+    def new_state():
+        return State(wavelet_index=wi, wavelet_index_ho=wh, dwt_depth=d, dwt_depth_ho=dh, luma_width=w, luma_height=h, color_diff_width=w, color_diff_height=h, luma_depth=8, color_diff_depth=8)
+
+    pics = []
+    for k in range(3):
+        pics.append({c: [[(x * (k + 3) + y * 7 + ci * 11 + 29 * k) % 256 for x in range(w)] for y in range(h)] for ci, c in enumerate(("Y", "C1", "C2"))})
+    state = new_state()
+    kept = []
+    for k, pic in enumerate(pics):
+        st = state if share == "same" else state.copy()
+        E.picture_encode(st, _copy.deepcopy(pic))
+        tr = {n: st[n] for n in ("y_transform", "c1_transform", "c2_transform")}
+        kept.append((tr, _copy.deepcopy(tr)))
+        state = st
+    for k, (tr, snapshot) in enumerate(kept):
+        if tr != snapshot:
+            problems.append("the transform of picture %d, kept by the caller, was modified while picture(s) %s were encoded with the same State" % (k, list(range(k + 1, len(pics)))))
+            break
+        ds = new_state()
+        ds.update(tr)
+        ds["current_picture"] = {}
+        out = {}
+        for n, c in (("y_transform", "Y"), ("c1_transform", "C1"), ("c2_transform", "C2")):
+            comp = D.idwt(ds, tr[n])
+            D.idwt_pad_removal(ds, comp, c)
+            out[c] = [[v + 128 for v in r] for r in comp]
+        if out != pics[k]:
+            problems.append("kept transform of picture %d no longer decodes to picture %d" % (k, k))
+            break
+    return problems
+
+
+def _shard_same_state(arg):
+    _, ci = arg
+    t = Tally()
+    for w, h in SAME_STATE_SIZES:
+        for share in ("same", "shallow-copy"):
+            t.count("same_state_cases")
+            try:
+                pr = check_same_state(SAME_STATE_CONFIGS[ci], w, h, share)
+            except Exception as e:  # noqa
+                pr = ["raised %s: %s" % (type(e).__name__, e)]
+            if pr:
+                t.violation("State reused (%s) for 3 pictures, configuration %r %dx%d: %s" % (share, SAME_STATE_CONFIGS[ci], w, h, pr[0]), {"kind": "same-state", "cfg": list(SAME_STATE_CONFIGS[ci]), "w": w, "h": h, "share": share})
+    return t
+
+
+# -- pictures wider / taller than any internal strip or buffer size ------------------------------------
+WIDE_SIZES = ((255, 2), (256, 2), (257, 2), (300, 3), (513, 2), (1025, 1), (2, 257), (3, 300))
+WIDE_CONFIGS = [(1, 1, 1, 0), (4, 4, 2, 0), (0, 3, 1, 1), (6, 6, 0, 2), (2, 5, 1, 2)]
+
+
+def _shard_wide(arg):
+    _, ci = arg
+    t = Tally()
+    wi, wh, d, dh = WIDE_CONFIGS[ci]
+    for w, h in WIDE_SIZES:
+        t.count("wide_cases")
+        p, _ = check_2d(wi, wh, d, dh, w, h, "Y", ["ramp"])
+        if p:
+            t.violation("wide picture %dx%d %r: %s" % (w, h, WIDE_CONFIGS[ci], p[0][:600]), {"kind": "2d", "wi": wi, "wh": wh, "d": d, "dh": dh, "w": w, "h": h, "comp": "Y", "content": ["ramp"]})
+    return t
+
+
 def _dispatch(arg):
+    if arg[0] == "same-state":
+        return _shard_same_state(arg)
+    if arg[0] == "wide":
+        return _shard_wide(arg)
     if arg[0] == "order":
         return _shard_order(arg)
     return _shard_1d(arg) if arg[0] == "1d" else _shard_2d(arg)
@@ -313,7 +397,7 @@ def run(ctx):
                     for wh in FILTERS:
                         big.append(("2d", wi, wh, d, dh, bb["size"], family))
                         expected_2d[family] += n_cases_2d(range(1, bb["size"] + 1), family)
-    shards = big + shards + [("order", ai) for ai in range(len(ORDER_CONFIGS))]
+    shards = big + shards + [("order", ai) for ai in range(len(ORDER_CONFIGS))] + [("same-state", ci) for ci in range(len(SAME_STATE_CONFIGS))] + [("wide", ci) for ci in range(len(WIDE_CONFIGS))]
     rot = ctx.seed % len(shards)
     shards = shards[rot:] + shards[:rot]
     total = pool.map_shards(_dispatch, shards)
@@ -323,6 +407,8 @@ def run(ctx):
         "twod_full": (total.n["twod_cases_full"], expected_2d["full"]),
         "twod_reduced": (total.n["twod_cases_reduced"], expected_2d["reduced"]),
         "order": (total.n["order_cases"], len(ORDER_CONFIGS) ** 2 * len(ORDER_PICTURES)),
+        "same_state": (total.n["same_state_cases"], len(SAME_STATE_CONFIGS) * len(SAME_STATE_SIZES) * 2),
+        "wide": (total.n["wide_cases"], len(WIDE_CONFIGS) * len(WIDE_SIZES)),
     }
     exhaustive = True
     for name, (got, want) in sorted(sizes.items()):
@@ -345,6 +431,8 @@ def run(ctx):
         "exhaustive": exhaustive,
         "bounds": {
             "filters": "all 7 (1-D); all 49 (vertical, horizontal) pairs (2-D)",
+            "same_state": "three pictures encoded with ONE State (and with shallow copies of it), transforms kept by the caller: %d configurations x sizes %r" % (len(SAME_STATE_CONFIGS), list(SAME_STATE_SIZES)),
+            "wide": "ramp pictures of sizes %r x configurations %r" % (list(WIDE_SIZES), WIDE_CONFIGS),
             "value_alphabet": list(ALPHABET),
             "oned": "every array in alphabet^n for even n <= %d; every array in {-M,0,1}^%d; +-M impulses and steps at every position for n in %r" % (b["oned_full_alphabet_max_len"], b["oned_small_alphabet_len"], list(IMPULSE_LENGTHS)),
             "twod_full_contents": dict(b["full"], contents="zeros, +-M constant, ramp, checker, +-M impulse at EVERY position (component Y); ramp for C1 and C2", depths="dwt_depth 0..%d x dwt_depth_ho 0..%d" % (b["full"]["d"], b["full"]["dh"]), sizes="w,h in 1..%d" % b["full"]["size"]),
@@ -361,6 +449,8 @@ def replay_case(case):
     if case["kind"] == "2d":
         g = lambda k: int(case[k])  # noqa: E731
         return check_2d(g("wi"), g("wh"), g("d"), g("dh"), g("w"), g("h"), case["comp"], list(case["content"]))[0]
+    if case["kind"] == "same-state":
+        return check_same_state(tuple(case["cfg"]), case["w"], case["h"], case["share"])
     if case["kind"] == "order":
         a, b = case["a"], case["b"]
         check_2d(a[0], a[1], a[2], a[3], int(case["w"]), int(case["h"]), "Y", list(case["content"]))
